@@ -18,7 +18,9 @@ import (
 	"github.com/verily-src/fhirpath-go/internal/fhir"
 )
 
-func init() { props["C09"] = runC09 }
+func init() {
+	props["C09"] = func(c *Ctx) { runC09(c); runC09Fractions(c) }
+}
 
 type tval struct {
 	v      system.Any
@@ -136,6 +138,12 @@ func runC09(c *Ctx) {
 				u = c09Units[c.rng.Intn(16)] // mostly the calendar keywords
 			}
 			picks = append(picks, [2]string{a, u})
+		}
+		// amounts a hair below a whole unit of the value's precision: fractions are dropped, never rounded up
+		if c.rng.Intn(4) == 0 || x.kind == "time" {
+			for _, a := range []string{"3599.9996", "59.9996", "0.9996", "1.9996", "0.0004", "0.0005", "0.0009", "-0.9996", "-3599.9996", "86399.9995"} {
+				picks = append(picks, [2]string{a, "seconds"})
+			}
 		}
 		// leap days: whole-year and whole-month shifts that land in century years (1900 and 2100 are
 		// common years, 1600, 2000 and 2400 leap years) and in ordinary leap / common years
@@ -312,4 +320,27 @@ func precRank(layout string) int {
 		return 5
 	}
 	return 7
+}
+
+
+// runC09Fractions: an amount in a unit finer than the value's precision is converted to whole units with the
+// fraction DROPPED: x + (whole unit - a little) = x + (the next smaller whole amount).  Seconds and milliseconds are ONE
+// precision in the implementation's tables (as in FHIRPath), so a fraction of a second added to a value written to the second
+// is not "finer than its precision" and is not among the cases.
+func runC09Fractions(c *Ctx) {
+	cases := []struct{ x, frac, whole string }{
+		{"@T08", "3599.9996 seconds", "0 hours"}, {"@T08", "7199.9996 seconds", "1 hour"}, {"@T08:30", "59.9996 seconds", "0 minutes"}, {"@T08:30", "119.9999 seconds", "1 minute"},
+		{"@T08:30:15.250", "0.0009 seconds", "0 milliseconds"}, {"@T08:30:15.250", "0.0019 seconds", "1 millisecond"},
+		{"@2020-02-29T10", "3599.9996 seconds", "0 hours"}, {"@2020-02-29T10:30", "59.9996 seconds", "0 minutes"}, {"@2020-02-29T10:30:00.000", "0.0009 seconds", "0 milliseconds"},
+		{"@2020-02-29T", "86399.9996 seconds", "0 days"}, {"@T08", "59.9996 minutes", "0 hours"}, {"@T08:30", "59999.9 milliseconds", "0 minutes"},
+	}
+	for _, k := range cases {
+		for _, sg := range []string{"+", "-"} {
+			a := compileEval(k.x+" "+sg+" "+k.frac, nil)
+			b := compileEval(k.x+" "+sg+" "+k.whole, nil)
+			c.Observe("fraction "+k.x+sg+k.frac, true)
+			c.Law(canonOutcome(a, nil) == canonOutcome(b, nil), "C09/fraction-dropped", "an amount in a finer unit is converted to whole units of the value's precision, fractions dropped (never rounded up)",
+				k.x+" "+sg+" "+k.frac+"  vs  "+k.x+" "+sg+" "+k.whole, canonOutcome(a, nil)+" vs "+canonOutcome(b, nil))
+		}
+	}
 }
